@@ -392,8 +392,7 @@ def corrupt_hist(rec):
     return rec
 
 
-HIST_NEG = [("C08_Hist_neg_inplace_maps", ["CallerMapsUnchanged"], []),
-            ("C08_Hist_neg_inplace_calls", ["EveryCallMeansItsArguments"], []),
+HIST_NEG = [("C08_Hist_neg_inplace", ["NotBothBroken"], []),
             ("C08_Hist_neg_shareddefault", ["EveryCallMeansItsArguments"], ["CallerMapsUnchanged"])]
 
 
@@ -412,8 +411,8 @@ def hist_family(tier, seed, wd):
         kit.require_clean(deep, "C08_Hist model check (histories, depth 3 with puts)")
         runs.append(deep)
         hists += [p for p in deep.printed() if "hist" in p]
-        rnd = kit.run_tlc("C08_Hist", "C08_Hist_sim", simulate="num=3000", depth=8, seed=seed,
-                          workers=4, heap="2g")
+        rnd = kit.run_tlc("C08_Hist", "C08_Hist_sim", simulate="num=750", depth=8, seed=seed,
+                          workers=4, heap="2g")     # num is per worker
         kit.require_clean(rnd, "C08_Hist random histories (-simulate)")
         runs.append(rnd)
         hists += [p for p in rnd.printed() if "hist" in p]
@@ -443,8 +442,22 @@ def hist_family(tier, seed, wd):
             f"{len(neg)} negative controls refuted ({time.time() - t0:.1f}s, in background)")
     (wd / "hists.json").write_text(json.dumps(uniq))
     recs = kit.drive("harness.c08", "drive_hist", uniq, None, procs=8, chunk=400)
-    verdicts, st, tr = judge_hist(recs, wd)
-    nctl = kit.corruption_control("C08_HJudge", "C08_HJudge", recs, corrupt_hist, wd, want=3)
+    # binding control: a few corrupted copies (a dict holding one entry more than its owner put
+    # there) ride along in the same judge run; TLC must reject every one of them
+    import copy
+    ctl = []
+    for r in recs[::max(1, len(recs) // 3)][:3]:
+        c = corrupt_hist(copy.deepcopy(r))
+        if c is not None:
+            c["id"] = 10 ** 9 + len(ctl)
+            ctl.append(c)
+    allv, st, tr = judge_hist(recs + ctl, wd)
+    verdicts = [v for v in allv if v["id"] < 10 ** 9]
+    hit = {v["id"] for v in allv if v["id"] >= 10 ** 9 and v["v"] == "hist-map-modified"}
+    if not ctl or len(hit) != len(ctl):
+        raise kit.MachineryError(f"C08_HJudge accepted {len(ctl) - len(hit)} of {len(ctl)} corrupted "
+                                 f"histories (the trace specification does not bind the recorded dicts)")
+    nctl = len(ctl)
     return {"runs": runs, "recs": recs, "verdicts": verdicts, "states": st, "trans": tr,
             "neg": neg, "controls": nctl}
 
